@@ -35,8 +35,9 @@ def mkTable (env : Env) (parts : List String) (alias : Option String) : DObj :=
   let schema :=
     if quals.isEmpty then defaultSchema env
     else
+      -- every part is normalised once and the joined name is kept (`schema.raw_name = parent_name`)
       let parent := ".".intercalate (quals.map Ident.escapeS)
-      if parent != "" then Ident.escapeS parent else defaultSchema env
+      if parent != "" then parent else defaultSchema env
   let raw := Ident.escapeS name
   ⟨.table schema raw, some (Ident.escapeS (alias.getD raw))⟩
 
